@@ -34,7 +34,7 @@ def _work(args):
         kinds[key] = kinds.get(key, 0) + 1
     fills = sum(1 for k in range(len(tr.steps)) if tr.steps[k]["op"][0] == "bar" and xm.fills_at(xm.Ctx(tr), k)) \
         if len(tr.steps) < 400 else -1
-    item = xd.coq_check_item(tr.case, tr) if (exact and want_item) else None
+    item = xd.coq_check_item(tr.case, tr) if (exact and want_item and not tr.unobservable) else None
     return {"exact": exact, "alarms": alarms, "kinds": kinds, "steps": len(tr.steps), "item": item, "case": case,
             "events": len(tr.events), "fill_bars": fills,
             "n_orders": len(tr.steps[-1]["snap"]["orders"]) if tr.steps else 0,
